@@ -347,7 +347,16 @@ def _compile_here(root_dir, main):
     def cf():
         BardCompiler().compile_file(full, outp)
         return json.load(open(outp))
-    return want, run(lambda: parse_file(full)), run(cf)
+    got3 = None
+    if want[0] == "ok":
+        # the bundle, always into the SAME directory (re-bundling after an edit is what authors do)
+        from bardic.cli.bundler import create_browser_bundle
+        bdir = os.path.join(root_dir, "_bundle")
+        def bf():
+            create_browser_bundle(full, bdir, minimal=True)
+            return json.load(open(os.path.join(bdir, "game.json")))
+        got3 = run(bf)
+    return want, run(lambda: parse_file(full)), run(cf), got3
 
 
 HISTORIES = [
@@ -395,10 +404,10 @@ def history_probes(rep, prop, only_edit=False):
                     os.makedirs(os.path.dirname(full), exist_ok=True)
                     with open(full, "w", encoding="utf-8") as f:
                         f.write(text)
-                want, got1, got2 = _compile_here(d, main)
+                want, got1, got2, got3 = _compile_here(d, main)
                 n += 1
-                for label, got in (("parse_file", got1), ("compile_file", got2)):
-                    if got != want:
+                for label, got in (("parse_file", got1), ("compile_file", got2), ("the bundle's game.json", got3)):
+                    if got is not None and got != want:
                         rep.violations.append({"cls": None, "family": "include-history", "what": f"history '{name}', compilation {k + 1} ({label} of {main}): "
                                                f"got {str(got)[:100]} where compiling the substituted text gives {str(want)[:100]}",
                                                "steps": [{"write": s_[0], "compile": s_[1]} for s_ in steps[:k + 1]]})
@@ -406,6 +415,75 @@ def history_probes(rep, prop, only_edit=False):
         finally:
             shutil.rmtree(d, ignore_errors=True)
     rep.coverage.setdefault("families", {})["include-history"] = {"compilations": n}
+    rep.coverage["evaluations"] = rep.coverage.get("evaluations", 0) + n
+
+
+DUP_LAYOUTS = [
+    # (files, path handed to the compiler relative to the working directory)
+    ({"main.bard": ":: Start\nHi\n+ [go] -> Courtyard\n\n:: Courtyard\nmain one\n\n@include chapters/main.bard\n",
+      "chapters/main.bard": "# chapter file\n\n:: Gate\ngate\n\n:: Courtyard\nchapter one\n"}, "main.bard"),
+    ({"main.bard": ":: Start\nHi\n+ [go] -> Courtyard\n\n:: Courtyard\nmain one\n\n@include chapters/main.bard\n",
+      "chapters/main.bard": "# chapter file\n\n:: Gate\ngate\n\n:: Courtyard\nchapter one\n"}, "./main.bard"),
+    ({"story/main.bard": ":: Start\nHi\n@include x/story/main.bard\n\n\n\n:: Hall\nsecond\n",
+      "story/x/story/main.bard": ":: Hall\nfirst\n"}, "story/main.bard"),
+    ({"main.bard": ":: Start\nHi\n\n:: A\none\n\n\n:: A\ntwo\n"}, "main.bard"),
+    ({"main.bard": "@include a.bard\n@include sub/a.bard\n:: Start\nHi\n", "a.bard": "\n:: A\none\n", "sub/a.bard": "\n\n\n:: A\ntwo\n:: Start\nagain\n"}, "main.bard"),
+]
+_DUP_LINE = re.compile(r"^\s*Line\s+(\d+)(?: in (.+?))?: (.*?)  ← ", re.M)
+
+
+def duplicate_report_probe(rep, prop):
+    """every line of the combined text is attributed to its true file and line - also in the report of passages defined
+    twice: each listed location, read in the file it names (the compiled file when it names none), must hold the listed line.
+    The file is compiled through a relative path from the story's directory, the way authors call the compiler."""
+    from bardic.compiler.parsing.io import parse_file
+    from bardic.compiler.compiler import BardCompiler
+    fam = prop.lower() + "-duplicate-report"
+    n = 0
+    for files, given in DUP_LAYOUTS:
+        d = tempfile.mkdtemp(prefix="verif_dup_")
+        cwd = os.getcwd()
+        try:
+            for p_, text in files.items():
+                full = os.path.join(d, p_)
+                os.makedirs(os.path.dirname(full), exist_ok=True)
+                with open(full, "w", encoding="utf-8") as f:
+                    f.write(text)
+            os.chdir(d)
+            for label, f in (("parse_file", lambda: parse_file(given)), ("compile_file", lambda: BardCompiler().compile_file(given, os.path.join(d, "_out.json"))),
+                             ("parse_file (absolute)", lambda: parse_file(os.path.join(d, given)))):
+                n += 1
+                try:
+                    with quiet():
+                        f()
+                    rep.violations.append({"cls": None, "family": fam, "what": f"{label}: a passage defined twice was accepted", "files": files, "compile": given})
+                    continue
+                except ValueError as e:
+                    msg = str(e)
+                except Exception as e:  # noqa
+                    rep.violations.append({"cls": None, "family": fam, "what": f"{label}: {type(e).__name__}: {str(e)[:160]}", "files": files, "compile": given})
+                    continue
+                listed = _DUP_LINE.findall(msg)
+                if len(listed) < 2:
+                    rep.violations.append({"cls": None, "family": fam, "what": f"{label}: the duplicate-passage report lists no locations: {msg[:200]}", "files": files, "compile": given})
+                    continue
+                main_path = given if "absolute" not in label else os.path.join(d, given)
+                for num, fil, content in listed:
+                    path = fil.strip() if fil else main_path
+                    try:
+                        src = open(path, encoding="utf-8").read().split("\n")
+                    except OSError:
+                        src = None
+                    got = src[int(num) - 1].strip() if src is not None and 0 < int(num) <= len(src) else None
+                    if got != content.strip():
+                        rep.violations.append({"cls": None, "family": fam, "files": files, "compile": given,
+                                               "what": f"{label} of {given}: the report lists '{content.strip()}' at line {num} of "
+                                                       f"{fil.strip() if fil else 'the compiled file (no file named)'}; that line reads {got!r}"})
+                        break
+        finally:
+            os.chdir(cwd)
+            shutil.rmtree(d, ignore_errors=True)
+    rep.coverage.setdefault("families", {})[fam] = {"cases": n}
     rep.coverage["evaluations"] = rep.coverage.get("evaluations", 0) + n
 
 
